@@ -6,7 +6,6 @@ from ..core import modules_for
 def run(ctx):
     q = ctx.tier == "quick"
     run_common(ctx, "C04", modules_for("C04"), stride=2 if q else 1, l1_scripts=250 if q else 2500)
-    run_common(ctx, "C04", ["SfProps.C04", "SfProps.C04Caf", "SfProps.C04W64", "SfProps.C04Aiff", "SfProps.C04Avr", "SfProps.C04Ircam", "SfProps.C04Paf", "SfProps.C04Svx"], stride=2 if q else 1, l1_scripts=250 if q else 2500)
     if not getattr(ctx, "replay", None):
         from .. import cafw64
         cafw64.campaign(ctx)      # CAF / W64 byte-exact container models (lean/SfModel/Caf.lean, W64.lean)
